@@ -628,6 +628,56 @@ def solveX (late : Bool) (E : Env ω ρ ξ α) (cb : Option (CallbackX ω)) (d :
 
 end
 
+/-! ## callbacks that assign `optimizer.nanstop` -/
+
+/-- a callback that may assign `optimizer.nanstop` (`setNan w = some b`); `solve` reads the
+    attribute afresh in every iteration (`if self.nanstop and not self._working_vars_finite()`) -/
+structure CallbackN (ω : Type) extends Callback ω where
+  setNan : ω → Option Bool
+
+section
+variable {ω ρ ξ α L : Type} [DecidableEq L]
+
+def bodyN (E : Env ω ρ ξ α) (c : CallbackN ω) (d : Drv ω ρ L) (i : Int) : Drv ω ρ L × Outcome :=
+  let d := { d with itnum := i }
+  let d := { d with world := E.step d.world, clock := d.clock + E.stepTicks d.world }
+  if d.nanstop && !(workingVarsFinite E.fin (E.vars d.world)) then (d, .nan)
+  else
+    let row : Row ρ := ⟨d.itnum, d.timer.elapsedDefault true d.clock, E.fields d.world⟩
+    let d := { d with rows := statsInsert d.rows row }
+    match d.timerStop with
+    | (d, false) => (d, .key)
+    | (d, true) =>
+      let enter := d.clock
+      let seen := d.world
+      let nb := (c.setNan d.world).getD d.nanstop
+      let d := { d with world := c.run d.world, clock := d.clock + c.ticks d.world }
+      let rec_ : CbRec ω := ⟨d.itnum, seen, enter, d.clock⟩
+      let d := { d with cblog := d.cblog ++ [rec_], nanstop := nb }
+      (d.timerStart, .ok)
+
+def loopN (E : Env ω ρ ξ α) (c : CallbackN ω) : Nat → Int → Drv ω ρ L → Drv ω ρ L × Outcome
+  | 0, _, d => (d, .ok)
+  | n + 1, i, d =>
+    match bodyN E c d i with
+    | (d', .ok) => loopN E c n (i + 1) d'
+    | r => r
+
+/-- `Optimizer.solve(callback)` with a callback that assigns `nanstop` -/
+def solveN (E : Env ω ρ ξ α) (c : CallbackN ω) (d : Drv ω ρ L) : Drv ω ρ L × Outcome :=
+  let d0 := d.timerStart
+  match loopN E c d0.maxiter.toNat d0.itnum d0 with
+  | (d1, .ok) =>
+    match d1.timerStop with
+    | (d2, false) => (d2, .key)
+    | (d2, true) =>
+      -- `if maxiter > 0` (the local copy; a `CallbackN` does not assign `maxiter`, so the attribute still equals it)
+      let d3 := if d2.maxiter > 0 then { d2 with itnum := d2.itnum + 1 } else d2
+      (d3, .ok)
+  | r => r
+
+end
+
 /-! ## a callback that raises -/
 
 section
